@@ -10,7 +10,7 @@ class IDevice(Device):
   _cost_fn = None
 
   def __init__(self, id, length, bounds, cbounds=None, **kwargs):
-    super().__init__(id, length, bounds, cbounds=None, **kwargs)
+    super().__init__(id, length, bounds, cbounds, **kwargs)
     self._cost_fn = ABCCost(self.a, self.b, self.c, self.lbounds, self.hbounds)
 
   def costv(self, s, p):
